@@ -202,7 +202,31 @@ def rename_one(count, seed):
     print('== rename1: %d single-variable renames, %d raised an alarm in at least one check' % (count, alarmed))
 
 
-TRANSFORMS = {'unparse': None, 'logging': Logging, 'logmsg': LogMsg, 'ifelse': IfElse, 'augassign': AugAssign, 'yoda': Yoda, 'rename': Rename}
+class NoElse(ast.NodeTransformer):
+    """if c: ...; return/raise/continue/break  else: B   ->   if c: ...; return   followed by B   (pylint no-else-return style)"""
+    def _flat(self, body):
+        out = []
+        for st in body:
+            if isinstance(st, ast.If) and st.orelse and not (len(st.orelse) == 1 and isinstance(st.orelse[0], ast.If)) and \
+                    isinstance(st.body[-1], (ast.Return, ast.Raise, ast.Continue, ast.Break)):
+                tail = st.orelse
+                st.orelse = []
+                out.append(st)
+                out.extend(tail)
+            else:
+                out.append(st)
+        return out
+
+    def generic_visit(self, node):
+        super().generic_visit(node)
+        for fld in ('body', 'orelse', 'finalbody'):
+            b = getattr(node, fld, None)
+            if isinstance(b, list) and b and isinstance(b[0], ast.stmt):
+                setattr(node, fld, self._flat(b))
+        return node
+
+
+TRANSFORMS = {'unparse': None, 'logging': Logging, 'logmsg': LogMsg, 'ifelse': IfElse, 'augassign': AugAssign, 'yoda': Yoda, 'rename': Rename, 'noelse': NoElse}
 
 
 def main(argv):
